@@ -41,8 +41,11 @@ class Sched:
     """schedule = list of (tid, nsteps) segments; after the list is exhausted
     the threads run to completion in tid order."""
 
-    def __init__(self, fns, segments, pkg_dirs):
+    def __init__(self, fns, segments, pkg_dirs, only_files=None):
         self.fns = fns
+        # only_files: count (and preempt at) line steps of these source
+        # files only, e.g. ('DT_String.py',) for the compile / call path
+        self.only = tuple(only_files) if only_files else None
         self.segs = list(segments)
         self.n = len(fns)
         self.go = [threading.Semaphore(0) for _ in fns]
@@ -72,8 +75,12 @@ class Sched:
                     self.go[tid].acquire()
             return local
 
+        only = self.only
+
         def glob(frame, event, arg):
-            if frame.f_code.co_filename.startswith(pkg):
+            fn = frame.f_code.co_filename
+            if fn.startswith(pkg) and (only is None or
+                                       os.path.basename(fn) in only):
                 return local
             return None
         return glob
